@@ -648,7 +648,7 @@ def main(argv=None):
         for kind, f in sorted(bykind.items()):
             path = os.path.join(rdir, chash(f["case"]) + ".json")
             with open(path, "w") as fh:
-                rec = {"property": pid, "kind": kind, "message": f["msg"], "seed": seed, "tier": tier, "case": f["case"]}
+                rec = {"property": pid, "kind": kind, "message": f["msg"][:4000], "seed": seed, "tier": tier, "case": f["case"]}
                 if sys.flags.optimize:
                     rec["interpreter_flags"] = "-O"
                 if f.get("prefix"):
